@@ -129,3 +129,19 @@ def path_term_info(lst, v, snap=None):
             root_field = name
     relative = term_contains(args[1], is_app("core::str::<impl str>::trim_start_matches"))
     return {"root_field": root_field, "relative": relative, "join": j, "outermost_is_join": t[1] is j or (isinstance(t[1], tuple) and t[1][:2] == j[:2])}
+
+
+def buffer_monotone(world, eng, clause, why):
+    """single-port mode: every write to the listener's receive-buffer size keeps it >= its old value"""
+    L = Listener(world, eng)
+    fi_lbs = L.fi.get("largest_block_size")
+    nwr = 0
+    for (node, root, path, old, new, cx) in eng.mem_writes:
+        if root == L.self_root and tuple(path) == (fi_lbs,):
+            nwr += 1
+            ok = old[0] == "i" and new[0] == "i" and cx.entails(lin.le(old[1], new[1]))
+            clause.ob(ok, "receive-buffer-shrinks in %s" % short(frame_fn(node[0])),
+                      "a request can SHRINK the single-port listener's receive buffer: %s" % why,
+                      eng.frame_bodies[node[0]].loc(node[1]) if node[0] in eng.frame_bodies else "",
+                      sample={"largest_block_size write": "new >= old", "entailed": ok})
+    clause.need(nwr, 2, "writes to the listener's buffer size")
